@@ -79,7 +79,7 @@ class Percolate(Process):
         # percolate the network
         occ = int(len(es) * T)
         occupied = es[:occ]
-        unoccupied = es[occ + 1:]
+        unoccupied = es[occ:]
 
         # perform the appropriate action
         self.occupy(occupied)
